@@ -6,10 +6,17 @@ import rsx
 REPO = os.environ.get('VERIF_REPO', '/repo')
 FNS = [('lib.rs', 'codepoint_len'), ('lib.rs', 'is_special'), ('parse.rs', 'is_digit'), ('parse.rs', 'is_hex_digit'), ('parse.rs', 'is_id_char'),
        ('lib.rs', 'next_utf8'), ('lib.rs', 'prev_codepoint_ix')]
-out = ['// GENERATED on every run by tools/kani_extract.py -- function text cut verbatim from %s/src\n' % REPO]
+# Kani function contracts attached to the extracted functions (attribute lines only; the function text is untouched)
+CONTRACTS = {
+    'codepoint_len': '#[cfg_attr(kani, kani::ensures(|r: &usize| *r == if b < 0x80 { 1 } else if b < 0xe0 { 2 } else if b < 0xf0 { 3 } else { 4 }))]',
+    'is_special': "#[cfg_attr(kani, kani::ensures(|r: &bool| *r == matches!(c, '\\\\' | '.' | '+' | '*' | '?' | '(' | ')' | '|' | '[' | ']' | '{' | '}' | '^' | '$' | '#')))]",
+    'is_digit': "#[cfg_attr(kani, kani::ensures(|r: &bool| *r == (b'0' <= b && b <= b'9')))]",
+    'is_hex_digit': "#[cfg_attr(kani, kani::ensures(|r: &bool| *r == ((b'0' <= b && b <= b'9') || (b'a' <= b && b <= b'f') || (b'A' <= b && b <= b'F'))))]",
+}
+out = ['// GENERATED on every run by tools/kani_extract.py -- function text cut verbatim from %s/src; the #[cfg_attr(kani, ..)] lines are contracts\n' % REPO]
 for f, name in FNS:
     s = rsx.Source(os.path.join(REPO, 'src', f))
     fn = s.find_fn(name)
-    out.append('// %s:%d\npub %s%s\n' % (f, s.line_of(fn.fn_kw), fn.signature, fn.body))
+    out.append('// %s:%d\n%spub %s%s\n' % (f, s.line_of(fn.fn_kw), (CONTRACTS[name] + '\n') if name in CONTRACTS else '', fn.signature, fn.body))
 open(os.path.join(os.path.dirname(os.path.dirname(os.path.abspath(__file__))), 'kani', 'src', 'extracted.rs'), 'w').write('\n'.join(out))
 print('extracted %d functions' % len(FNS))
